@@ -16,6 +16,15 @@ What is (and is not) a theorem here — the level of this property is PARTIAL:
 import OsmoVerif.Gen.Det
 import OsmoVerif.Proofs.DetDistr
 import OsmoVerif.Proofs.DetEpochsRun
+import OsmoVerif.Props.C06
+import OsmoVerif.Proofs.LockupGenesis
+import OsmoVerif.Proofs.IncentivesGenesisRun
+import OsmoVerif.Proofs.IncentivesGenesisFollow
+import OsmoVerif.Proofs.TwapGenesis
+import OsmoVerif.Proofs.SuperfluidGenesisAccs
+import OsmoVerif.Props.C11
+import OsmoVerif.Proofs.CLPoolGenesis
+import OsmoVerif.Props.C07
 
 namespace OsmoVerif.Props.C19
 open List OsmoVerif.Det OsmoVerif.Spec
@@ -422,5 +431,365 @@ theorem accum_run_after_import (st : Accum.Store)
     (h3 : ∀ a ∈ st.accs, Accum.hasSep a.1 = false) (ops : List Accum.Op) :
     (accumImport (accumExport st)).map (fun s => Accum.run s ops) = some (Accum.run st ops) := by
   rw [accum_export_import_eq st h1 h2 h3]; rfl
+
+/-! ## (B5) export/import of x/lockup (`Model/LockupGenesis.lean`: `ExportGenesis` walks the duration index, not the
+lock records; `InitGenesis` = `InitializeAllLocks`, which rebuilds the reference index and the accumulation store
+and whose error `InitGenesis` swallows).  `Lockup.Sim` is the observational equivalence of lockup states: equal bank,
+last lock id and params; lock records, index entries equal as SETS (a KV store has no insertion order; the model's
+lists do); equal accumulation for every denomination other than the non-denomination "" (DESIGN F6). -/
+
+/-- **Export → import is observationally the identity on every reachable state** (any history of lockup messages,
+`UnlockMaturedLock`, `WithdrawMaturedLocks`, `AddTokensToLockByID`): the export does not panic, `InitializeAllLocks`
+completes (`true`), and the imported state is `Sim`-equivalent to the exported one. -/
+theorem lockup_export_import_equiv {s : Lockup.State} (h : C06.Reachable s) :
+    ∃ s', Lockup.exportImport s = some (s', true) ∧ Lockup.Sim s' s :=
+  Lockup.exportImport_sim (C06.inv_reachable h)
+
+/-- the exported document lists every lock exactly once (not-unlocking first, each group in index order), the last
+lock id and the params. -/
+theorem lockup_export_complete {s : Lockup.State} (h : C06.Reachable s) :
+    ∃ g, Lockup.exportGenesis s = some g ∧ g.locks.Perm s.locks ∧ g.lastLockId = s.lastLockId ∧
+      g.params = some s.forceAllowed := by
+  obtain ⟨ls, h1, h2⟩ := Lockup.getPeriodLocks_inv (C06.inv_reachable h)
+  exact ⟨{ lastLockId := s.lastLockId, locks := ls, params := some s.forceAllowed },
+    by simp only [Lockup.exportGenesis, h1, Option.map_some], h2, rfl, rfl⟩
+
+/-- `Sim` is an equivalence on states with unique lock ids. -/
+theorem lockup_sim_equivalence :
+    (∀ s : Lockup.State, (Lockup.ids s.locks).Nodup → Lockup.Sim s s) ∧
+    (∀ s t, Lockup.Sim s t → Lockup.Sim t s) ∧ (∀ s t u, Lockup.Sim s t → Lockup.Sim t u → Lockup.Sim s u) :=
+  ⟨fun _ hn => Lockup.Sim.refl hn, fun _ _ h => h.symm, fun _ _ _ h1 h2 => h1.trans h2⟩
+
+/-- `Sim` is preserved by EVERY operation, with the same outcome (failure / returned lock id) on both sides:
+equivalent states cannot be told apart by any transaction. -/
+theorem lockup_sim_step {s t : Lockup.State} (h : Lockup.Sim s t) (tm : Int) (op : Lockup.Op) :
+    Lockup.Sim (Lockup.step tm s op).1 (Lockup.step tm t op).1 ∧ (Lockup.step tm s op).2 = (Lockup.step tm t op).2 :=
+  Lockup.step_sim h tm op
+
+/-- every query of the model (13 keeper list queries, lock by id, last id, balances, accumulation of every real
+denomination) answers the same on equivalent states. -/
+theorem lockup_sim_queries {s t : Lockup.State} (h : Lockup.Sim s t) :
+    (∀ id, Lockup.getLock s id = Lockup.getLock t id) ∧ s.lastLockId = t.lastLockId ∧
+    (∀ o dn, Lockup.aget s.bal (o, dn) = Lockup.aget t.bal (o, dn)) ∧
+    (∀ dn, Lockup.aget s.modBal dn = Lockup.aget t.modBal dn) ∧
+    (∀ dn, dn ≠ "" → ∀ d, Lockup.accumQuery s dn d = Lockup.accumQuery t dn d) ∧
+    Lockup.qAll s = Lockup.qAll t ∧ (∀ o, Lockup.qOwner s o = Lockup.qOwner t o) ∧
+    (∀ o d nu, Lockup.qOwnerLonger s o d nu = Lockup.qOwnerLonger t o d nu) ∧
+    (∀ o d, Lockup.qOwnerDuration s o d = Lockup.qOwnerDuration t o d) ∧
+    (∀ o dn d nu, Lockup.qOwnerDenomLonger s o dn d nu = Lockup.qOwnerDenomLonger t o dn d nu) ∧
+    (∀ o dn d, Lockup.qOwnerDenomDurationNotUnlocking s o dn d = Lockup.qOwnerDenomDurationNotUnlocking t o dn d) ∧
+    (∀ dn d, Lockup.qDenomLonger s dn d = Lockup.qDenomLonger t dn d) ∧
+    (∀ tm, Lockup.qUnlockingBefore s tm = Lockup.qUnlockingBefore t tm) ∧
+    (∀ tm, Lockup.qUnlockingAfter s tm = Lockup.qUnlockingAfter t tm) ∧
+    (∀ now o ts, Lockup.qOwnerPastTime s now o ts = Lockup.qOwnerPastTime t now o ts) ∧
+    (∀ now o ts, Lockup.qOwnerUnlockedBefore s now o ts = Lockup.qOwnerUnlockedBefore t now o ts) ∧
+    (∀ now o dn ts, Lockup.qOwnerDenomPastTime s now o dn ts = Lockup.qOwnerDenomPastTime t now o dn ts) ∧
+    (∀ now dn ts, Lockup.qDenomPastTime s now dn ts = Lockup.qDenomPastTime t now dn ts) :=
+  Lockup.queries_sim h
+
+/-- **Every subsequent sequence of blocks produces the same state**: after export → import of a reachable state, any
+further history gives the same outcomes transaction by transaction and equivalent states (hence, by
+`lockup_sim_queries`, the same answers to every query at every point). -/
+theorem lockup_run_after_import {s s' : Lockup.State} {b : Bool} (h : C06.Reachable s)
+    (he : Lockup.exportImport s = some (s', b)) (hist : List (Int × Lockup.Op)) :
+    Lockup.outcomes s' hist = Lockup.outcomes s hist ∧ Lockup.Sim (Lockup.run s' hist) (Lockup.run s hist) := by
+  obtain ⟨s'', h1, h2⟩ := lockup_export_import_equiv h
+  rw [h1] at he
+  injection he with he
+  injection he with he1 he2
+  subst he1
+  exact ⟨Lockup.outcomes_sim hist h2, Lockup.run_sim hist h2⟩
+
+/-- the ONE thing the import changes: the accumulation tree of the non-denomination "" (fed by the stray `Increase`
+of `AddTokensToLockByID`, F6) is not rebuilt, it is empty afterwards. -/
+theorem lockup_import_empties_empty_denom_accum {s s' : Lockup.State} {b : Bool} (h : C06.Reachable s)
+    (he : Lockup.exportImport s = some (s', b)) (d : Int) : Lockup.accumQuery s' "" d = 0 := by
+  unfold Lockup.accumQuery
+  split
+  · rfl
+  · exact Lockup.exportImport_empty_denom (C06.inv_reachable h) he d
+
+/-- … and it really differs on a reachable state (`C06.demo`: one add-to-existing-lock of 50): 50 before, 0 after;
+so plain equality `import (export s) = s` is FALSE for the model's (and the chain's) lockup store. -/
+theorem lockup_export_import_drops_empty_denom_accum_witness :
+    Lockup.accumQuery C06.demo "" 0 = 50 ∧
+    (Lockup.exportImport C06.demo).map (fun p => (Lockup.accumQuery p.1 "" 0, p.2)) = some (0, true) := by
+  decide
+
+/-- state of `C06.demoHist` after its fifth transaction: lock 1 (A, 120foo, not unlocking), lock 2 (B, 70foo, extended
+to 25), lock 3 (A, 30foo, unlocking until 210). -/
+def lockupMid : Lockup.State :=
+  Lockup.run (Lockup.initState [(("A", "foo"), 1000), (("B", "foo"), 500)] []) (C06.demoHist.take 5)
+
+example : C06.Reachable lockupMid := ⟨_, _, C06.demoHist.take 5, rfl⟩
+/-- the exported document: not-unlocking locks by (duration, id), then the unlocking ones. -/
+example : (Lockup.exportGenesis lockupMid).map (fun g => (g.lastLockId, g.locks.map (·.id), g.params)) =
+    some (3, [1, 2, 3], some []) := by decide
+/-- the imported state: same records, accumulation and queries; the matured lock can be withdrawn as before. -/
+example : (Lockup.exportImport lockupMid).map (fun p => (p.2, p.1.locks.map (·.id))) = some (true, [1, 2, 3]) ∧
+    (Lockup.exportImport lockupMid).map (fun p => (Lockup.accumQuery p.1 "foo" 10, Lockup.accumQuery p.1 "foo" 11)) =
+      some (220, 70) ∧
+    (Lockup.exportImport lockupMid).map (fun p => (Lockup.qOwner p.1 "A", Lockup.qUnlockingBefore p.1 210)) =
+      some ([1, 3], [3]) ∧
+    (Lockup.exportImport lockupMid).map (fun p => (Lockup.step 210 p.1 (.unlockMatured 3)).2) = some (some 0) := by
+  decide
+
+/-- **`InitGenesis` rejects nothing and swallows the error of `InitializeAllLocks`** (`GenesisState.Validate` returns
+nil): a document listing lock id 1 twice is imported "successfully" (`false` is not observable on chain) with the
+record of the SECOND entry, the index entries of the FIRST, and NO accumulation store at all. -/
+theorem lockup_init_genesis_swallows_error_witness :
+    let l1 : Lockup.Lock := ⟨1, "A", 10, none, [("foo", 100)], ""⟩
+    let l1' : Lockup.Lock := ⟨1, "B", 10, none, [("foo", 7)], ""⟩
+    let l2 : Lockup.Lock := ⟨2, "B", 10, none, [("foo", 5)], ""⟩
+    let r := Lockup.initGenesis {} { lastLockId := 2, locks := [l1, l1', l2], params := none }
+    r.2 = false ∧ r.1.locks = [l1'] ∧ Lockup.qOwner r.1 "A" = [1] ∧ Lockup.qOwner r.1 "B" = [] ∧
+      Lockup.accumQuery r.1 "foo" 0 = 0 := by
+  decide
+
+/-- `ExportGenesis` reads the INDEX, not the record store: a lock record without a duration index entry (not
+reachable through messages — C06 `index_exact`) is silently left out of the document. -/
+theorem lockup_export_reads_index_witness :
+    let l1 : Lockup.Lock := ⟨1, "A", 10, none, [("foo", 100)], ""⟩
+    (Lockup.exportGenesis { locks := [l1], lastLockId := 1 }).map (·.locks) = some [] := by
+  decide
+
+/-! ## (B6) export/import of x/incentives (`Model/IncentivesGenesis.lean`: `ExportGenesis` lists the gauges of the
+ACTIVE and UPCOMING reference stores only; `InitGenesis` files every imported gauge by its FIELDS against the import
+block time).  `Incentives.Reachable` = any history of create / top-up / route change / epoch from any configuration. -/
+
+/-- **What export → import does, exactly**: on every reachable state whose active gauges have started (`now` is not
+before an earlier block time) the imported state is the exporting state with (1) the due upcoming gauges moved to the
+active store exactly as the next epoch hook would (`activate now`, F36), (2) the finished reference store EMPTY and
+(3) only the records of active/upcoming gauges (`imported`); last gauge id, lockable durations and every field of every
+remaining gauge are preserved.  Both sides fail together (`activate` = a duplicate reference, excluded by C09's `Inv`). -/
+theorem incentives_export_import_eq {s : Incentives.State} {now : Int} (h : Incentives.Reachable s)
+    (hstarted : ∀ kv ∈ s.active, kv.1 ≤ now) :
+    Incentives.exportImport now s = (Incentives.activate now s.upcoming s.active).map (Incentives.imported s) :=
+  Incentives.exportImport_eq (Incentives.reachable_inv h).1 (Incentives.reachable_inv h).2 (Incentives.reachable_wf h) hstarted
+
+/-- the imported record store answers `GetGaugeByID` exactly for the gauges filed as active or upcoming. -/
+theorem incentives_imported_records {s : Incentives.State} (h : Incentives.Reachable s) (id : Nat) :
+    Incentives.getGauge (Incentives.importedGauges s) id =
+      if id ∈ Incentives.refsIds s.active ++ Incentives.refsIds s.upcoming then Incentives.getGauge s.gauges id else none :=
+  Incentives.getGauge_imported (Incentives.reachable_inv h).1 id
+
+/-- new reachable-state invariants the proof needed: both live reference stores have strictly ascending keys without
+empty id lists (what the KV store gives for free), and every gauge record is filed in one of the three stores. -/
+theorem incentives_store_shape {s : Incentives.State} (h : Incentives.Reachable s) :
+    Incentives.RefsWF s.upcoming ∧ Incentives.RefsWF s.active ∧
+    ∀ g ∈ s.gauges, g.id ∈ Incentives.refsIds s.upcoming ++ Incentives.refsIds s.active ++ Incentives.refsIds s.finished :=
+  ⟨(Incentives.reachable_wf h).1, (Incentives.reachable_wf h).2, Incentives.reachable_cov h⟩
+
+/-- `Drop D` (the second state is the first without the records / finished entries of the gauges `D`) is preserved by
+EVERY operation that is not a top-up of a gauge in `D`, with the same outcome (failure, or the payouts per owner). -/
+theorem incentives_drop_step {D : List Nat} {s t : Incentives.State} (hi : Incentives.Reachable s)
+    (h : Incentives.Drop D s t) (o : Incentives.Op) (ho : o.avoids D) :
+    Incentives.Drop D (Incentives.step s o) (Incentives.step t o) ∧ Incentives.outcome s o = Incentives.outcome t o :=
+  Incentives.step_drop (Incentives.reachable_inv hi).1 h o ho
+
+/-- **"every subsequent sequence of blocks produces the same state"**: after export → import at `now`, ANY later history
+of gauge creations, top-ups, route changes and epochs reports the same on both chains operation by operation — same
+failures, same payouts to every owner in every epoch — and the imported chain keeps `Follow`ing the exporting one (same
+configuration, counters, balance, records of all gauges not finished at export time, and the same result of every
+activation), PROVIDED (`okAfter`) epochs happen at block times `≥ now` and no gauge that was already finished at export
+time is topped up — those top-ups really behave differently (`incentives_import_changes_topup_outcome_witness`).  The early
+activation done by the import (F36) is absorbed: filing a gauge commutes with activation (`activate_refsAdd_up`). -/
+theorem incentives_run_after_import {s t : Incentives.State} {now : Int} (h : Incentives.Reachable s)
+    (hstarted : ∀ kv ∈ s.active, kv.1 ≤ now) (ht : Incentives.exportImport now s = some t) (ops : List Incentives.Op)
+    (hok : ∀ o ∈ ops, o.okAfter now (Incentives.refsIds s.finished)) :
+    Incentives.outcomes t ops = Incentives.outcomes s ops ∧
+    Incentives.Follow now (Incentives.refsIds s.finished) (Incentives.run s ops) (Incentives.run t ops) :=
+  Incentives.run_after_import_full (Incentives.reachable_inv h).1 (Incentives.reachable_inv h).2 (Incentives.reachable_wf h)
+    (Incentives.reachable_cov h) hstarted ht ops hok
+
+/-- what `Follow` lets every query see: the same answer for every gauge that was not finished at export time, the same
+last gauge id, module balance and configuration. -/
+theorem incentives_follow_queries {now : Int} {D : List Nat} {s t : Incentives.State} (h : Incentives.Follow now D s t) :
+    t.cfg = s.cfg ∧ t.lastId = s.lastId ∧ t.balance = s.balance ∧
+    (∀ id, id ∉ D → Incentives.getGauge t.gauges id = Incentives.getGauge s.gauges id) ∧
+    (∀ id, id ∈ D → Incentives.getGauge t.gauges id = none) ∧
+    (∀ now', now ≤ now' → Incentives.activate now' t.upcoming t.active = Incentives.activate now' s.upcoming s.active) :=
+  ⟨h.cfg, h.last, h.bal, fun id hid => by rw [h.look id, if_neg hid], fun id hid => by rw [h.look id, if_pos hid], h.act⟩
+
+/-- (first version, kept: the special case "the later history starts with a succeeding epoch", with the stronger relation
+`Drop` — identical reference stores — afterwards.) -/
+theorem incentives_run_after_import_partial {s t : Incentives.State} {now now' : Int} (h : Incentives.Reachable s)
+    (hstarted : ∀ kv ∈ s.active, kv.1 ≤ now) (ht : Incentives.exportImport now s = some t) (hle : now ≤ now')
+    (thr : Incentives.Thr) (locks : List Incentives.Lock) (hok : Incentives.epoch s now' thr locks ≠ none)
+    (ops : List Incentives.Op) (hav : ∀ o ∈ ops, o.avoids (Incentives.refsIds s.finished)) :
+    Incentives.outcomes t (.epoch now' thr locks :: ops) = Incentives.outcomes s (.epoch now' thr locks :: ops) ∧
+    Incentives.Drop (Incentives.refsIds s.finished) (Incentives.run s (.epoch now' thr locks :: ops))
+      (Incentives.run t (.epoch now' thr locks :: ops)) :=
+  Incentives.run_after_import (Incentives.reachable_inv h).1 (Incentives.reachable_inv h).2 (Incentives.reachable_wf h)
+    (Incentives.reachable_cov h) hstarted ht hle thr locks hok ops hav
+
+/-- history: gauge 1 (2 epochs, 1000uosmo) pays 500 in its first epoch and finishes in the second one WITHOUT a
+qualifying lock (F20: filled 1 of 2); gauge 2 (perpetual) is created with a start time in the past. -/
+def incHist : List Incentives.Op := [
+  .create false "lp" 3600 [("uosmo", 1000)] 0 2,
+  .epoch 10 [("uosmo", 1)] [⟨1, 0, none, 3600, "lp", 100, false⟩],
+  .epoch 20 [("uosmo", 1)] [],
+  .create true "lp" 3600 [("uosmo", 700)] 5 1]
+
+def incState : Incentives.State := Incentives.run (Incentives.init ⟨[3600], ["lp"], []⟩ []) incHist
+
+example : Incentives.Reachable incState := ⟨_, _, incHist, rfl, rfl⟩
+example : (Incentives.refsIds incState.upcoming, Incentives.refsIds incState.active, Incentives.refsIds incState.finished,
+    incState.lastId) = ([2], [], [1], 2) := by decide +kernel
+
+set_option synthInstance.maxSize 2048 in
+/-- **finished gauges are not exported** (and F36: gauge 2, upcoming on the exporting chain, is active after the
+import): `GetGaugeByID(1)` answers before and errors after; the finished list is empty after. -/
+theorem incentives_export_drops_finished_gauges_witness :
+    (Incentives.getGauge incState.gauges 1).isSome = true ∧
+    (Incentives.exportImport 30 incState).map (fun t => (Incentives.getGauge t.gauges 1, Incentives.refsIds t.finished,
+      Incentives.refsIds t.upcoming, Incentives.refsIds t.active, t.lastId, t.gauges.map (·.id))) =
+      some (none, [], [], [2], 2, [2]) := by
+  decide +kernel
+
+/-- … and a LATER TRANSACTION behaves differently: gauge 1 sits in the finished store with `filled 1 < 2` (F20), so
+its fields still say "active" and `AddToGaugeRewards(1)` SUCCEEDS on the exporting chain but fails on the imported one
+(gauge not found). -/
+theorem incentives_import_changes_topup_outcome_witness :
+    (Incentives.addToGauge incState 1 [("uosmo", 50)] 30).isSome = true ∧
+    (Incentives.exportImport 30 incState).map (fun t => (Incentives.addToGauge t 1 [("uosmo", 50)] 30).isSome) = some false := by
+  decide +kernel
+
+set_option synthInstance.maxSize 2048 in
+/-- the next epoch pays the same on both chains (instance of `incentives_run_after_import_partial`). -/
+example : (Incentives.exportImport 30 incState).map (fun t =>
+      (Incentives.epoch t 40 [("uosmo", 1)] [⟨1, 0, none, 3600, "lp", 100, false⟩]).map (·.2)) =
+    some ((Incentives.epoch incState 40 [("uosmo", 1)] [⟨1, 0, none, 3600, "lp", 100, false⟩]).map (·.2)) ∧
+    (Incentives.epoch incState 40 [("uosmo", 1)] [⟨1, 0, none, 3600, "lp", 100, false⟩]).map (fun r => Incentives.received r.2) =
+      some [(0, [("uosmo", 700)])] := by
+  decide +kernel
+
+/-! ## (B7) export/import of x/twap (`Model/TwapGenesis.lean`, one (pool, pair)): the historical store is exported, the
+most-recent-record store is rebuilt by `StoreNewRecord` in ascending time order, `InitGenesis` first runs
+`GenesisState.Validate` and PANICS on a record it rejects. -/
+
+/-- **Export → import is the identity or a panic**: on every well-formed store (C10 `WF`; every history of a created
+pair, see below) the imported store EQUALS the exported one — historical index and most recent record — if `Validate`
+accepts every stored record; otherwise `InitGenesis` panics (the chain cannot be restarted from its own export). -/
+theorem twap_export_import_eq {s : Twap.Store} (wf : Twap.WF s) :
+    Twap.exportImport s = if s.hist.all Twap.validRecord then some s else none :=
+  Twap.exportImport_eq wf
+
+/-- … for every history (end-of-block updates with arbitrary prices / error flags / times, pruning passes) of a pair
+created at a representable time. -/
+theorem twap_export_import_eq_on_histories {now height sp0 sp1 : Int} {e : Bool} (hz : Twap.zeroTime ≤ now)
+    (ops : List Twap.Op) :
+    let s := Twap.runOps (Twap.create {} now height sp0 sp1 e) ops
+    Twap.exportImport s = if s.hist.all Twap.validRecord then some s else none :=
+  Twap.exportImport_eq ((Twap.WF.create hz).runOps ops)
+
+/-- hence every query and every later block behave identically after a successful import (the state is EQUAL). -/
+theorem twap_run_after_import {s s' : Twap.Store} (wf : Twap.WF s) (h : Twap.exportImport s = some s')
+    (ops : List Twap.Op) : Twap.runOps s' ops = Twap.runOps s ops := by
+  rw [Twap.exportImport_eq wf] at h
+  split at h
+  · injection h with h; rw [h]
+  · cases h
+
+/-- when does the chain write only records that `Validate` accepts?  Creation and every end-of-block update with
+`GoodInput` (positive height, non-zero time, a failed spot-price read comes with a zero price, a successful one with two
+positive prices) keep all records valid — PROVIDED a successful read is not recorded at the very time of the previous
+failed read (`hne`); pruning keeps validity. -/
+theorem twap_valid_records_preserved :
+    (∀ {now height sp0 sp1 : Int} {e : Bool}, Twap.GoodInput now height sp0 sp1 e →
+      Twap.VInv (Twap.create {} now height sp0 sp1 e)) ∧
+    (∀ {s s' : Twap.Store} {now height sp0 sp1 : Int} {e : Bool}, Twap.WF s → Twap.VInv s →
+      Twap.GoodInput now height sp0 sp1 e → (e = false → ∀ r, s.recent = some r → r.lastErr ≠ now) →
+      Twap.update s now height sp0 sp1 e = .ok s' → Twap.VInv s') ∧
+    (∀ {s : Twap.Store} {k : Int}, Twap.WF s → Twap.VInv s → Twap.VInv (Twap.prune s k)) ∧
+    (∀ {s : Twap.Store}, Twap.VInv s → s.hist.all Twap.validRecord = true) :=
+  ⟨fun g => Twap.create_valid g, fun wf hv g hne h => Twap.update_valid wf hv g hne h,
+    fun wf hv => Twap.prune_valid wf hv, fun hv => Twap.VInv_all hv⟩
+
+/-- a concentrated pool created empty (both spot price reads fail: prices 0, error time = block time) that receives its
+first position IN THE SAME BLOCK: the EndBlocker overwrites the record of that block time with the now readable prices
+and inherits the error time, which equals the record's own time. -/
+def twapSameBlock : Twap.Store :=
+  Twap.runOps (Twap.create {} 1000000000 5 0 0 true)
+    [.update 1000000000 5 506031233833671468615 1976162602501908 false]
+
+/-- **the chain cannot import its own export** (observed on the real keeper by the `twap` engine with exactly these
+numbers): `Validate` demands a zero price in a record whose error time is its own time; `InitGenesis` panics. -/
+theorem twap_import_rejects_own_export_witness :
+    twapSameBlock.hist.map (fun r => (r.time, r.lastErr, r.sp0, r.sp1)) =
+      [(1000000000, 1000000000, 506031233833671468615, 1976162602501908)] ∧
+    Twap.exportImport twapSameBlock = none := by
+  decide +kernel
+
+example : Twap.WF twapSameBlock :=
+  (Twap.WF.create (now := 1000000000) (height := 5) (sp0 := 0) (sp1 := 0) (e := true) (by decide)).runOps _
+
+/-- a history whose export imports (and is reproduced exactly): same pool, first position one block later. -/
+def twapNextBlock : Twap.Store :=
+  Twap.runOps (Twap.create {} 1000000000 5 0 0 true)
+    [.update 6000000000 6 506031233833671468615 1976162602501908 false,
+     .update 9000000000 7 500000000000000000000 2000000000000000 false, .prune 7000000000]
+
+example : twapNextBlock.hist.length = 2 ∧ Twap.exportImport twapNextBlock = some twapNextBlock := by decide +kernel
+
+/-! ## (B8) export/import of x/superfluid (`Model/SuperfluidGenesis.lean`): params, asset list, multipliers,
+intermediary accounts and lock ↔ account connections are written back verbatim; `InitGenesis` panics on a connection
+whose intermediary account is not in the document. -/
+
+/-- **Export → import is the identity** on every state reachable from an initial state (C11 `Init`, no intermediary
+account yet) whose multipliers live on the denominations `< n`: the import does not panic (every connection points to an
+exported account — C11's invariant) and the imported state EQUALS the exported one. -/
+theorem superfluid_export_import_eq {s₀ : Superfluid.State} (h0 : C11.Init s₀) (ha : s₀.accs = [])
+    (ops : List Superfluid.Op) {n : Nat} (hm : ∀ d, n ≤ d → (Superfluid.run s₀ ops).mult d = 0) :
+    Superfluid.exportImport n (Superfluid.run s₀ ops) = some (Superfluid.run s₀ ops) :=
+  Superfluid.exportImport_eq (C11.reach_inv (C11.init_inv h0) ops) hm
+    (Superfluid.accsOK_run ops s₀ (by unfold Superfluid.AccsOK; rw [ha]; exact List.nodup_nil))
+
+/-- the new invariant behind it: intermediary accounts are unique per (denom, validator) along every history. -/
+theorem superfluid_accounts_unique {s₀ : Superfluid.State} (h : Superfluid.AccsOK s₀) (ops : List Superfluid.Op) :
+    ((Superfluid.run s₀ ops).accs.map (·.1)).Nodup :=
+  Superfluid.accsOK_run ops s₀ h
+
+/-- hence every later history is the same (the states are equal). -/
+theorem superfluid_run_after_import {s₀ : Superfluid.State} (h0 : C11.Init s₀) (ha : s₀.accs = [])
+    (ops : List Superfluid.Op) {n : Nat} (hm : ∀ d, n ≤ d → (Superfluid.run s₀ ops).mult d = 0) {s' : Superfluid.State}
+    (h : Superfluid.exportImport n (Superfluid.run s₀ ops) = some s') (later : List Superfluid.Op) :
+    Superfluid.run s' later = Superfluid.run (Superfluid.run s₀ ops) later := by
+  rw [superfluid_export_import_eq h0 ha ops hm] at h
+  injection h with h
+  rw [h]
+
+/-- `InitGenesis` validates: a document with a connection to an account it does not list makes the import panic. -/
+theorem superfluid_import_rejects_dangling_connection_witness :
+    Superfluid.initGenesis (Superfluid.freshOf C11.w0)
+      { riskFactor := 0, assets := [], mults := [], accs := [], conns := [(1, (0, 0))] } = none := by
+  decide +kernel
+
+/-! ## (B9) export/import of one concentrated-liquidity pool (`Model/CLPoolGenesis.lean`): the pool struct, its
+initialized ticks (store order = tick order), its positions (store order = id order), the next position id.  The
+accumulators, incentive records and the module-wide liquidity totals are outside `Model/CLPool.lean` (engine only). -/
+
+/-- new reachable-state invariant: the position list of the pool model is in ascending id order along every history
+(create / add-to / withdraw / transfer / swap), as the position-id keys of the store are. -/
+theorem cl_positions_id_sorted (s f : Int) (ops : List CLBook.Op) :
+    CLBook.IdSorted (CLBook.run (CLBook.initPool s f) ops).positions :=
+  CLBook.idSorted_run ops (CLBook.initPool_core s f) List.Pairwise.nil
+
+/-- **Export → import of a pool is the identity** on every reachable pool state: struct, ticks (gross / net), positions
+(owner, range, liquidity), next position id — and the bank balances it starts from. -/
+theorem cl_export_import_eq (s f : Int) (ops : List CLBook.Op) :
+    CLPool.exportImport (CLBook.run (CLBook.initPool s f) ops) = CLBook.run (CLBook.initPool s f) ops :=
+  CLBook.exportImport_eq (C07.reachable_core s f ops) (cl_positions_id_sorted s f ops)
+
+/-- hence every later history (LP operations and swaps) is the same. -/
+theorem cl_run_after_import (s f : Int) (ops later : List CLBook.Op) :
+    CLBook.run (CLPool.exportImport (CLBook.run (CLBook.initPool s f) ops)) later =
+      CLBook.run (CLBook.run (CLBook.initPool s f) ops) later := by
+  rw [cl_export_import_eq]
+
+/-- non-vacuity: the C07 demo history (three positions, two swaps, withdraw, transfer, add-to-position). -/
+example : (CLBook.run (CLBook.initPool 100 0) CLBook.demoOps).positions.map (·.id) ≠ [] ∧
+    CLPool.exportImport (CLBook.run (CLBook.initPool 100 0) CLBook.demoOps) = CLBook.run (CLBook.initPool 100 0) CLBook.demoOps :=
+  ⟨by decide +kernel, cl_export_import_eq 100 0 CLBook.demoOps⟩
 
 end OsmoVerif.Props.C19
